@@ -100,6 +100,8 @@ class State:
         self.mdom = None    # map heap (pyvc/maps.py): immutable z3 terms
         self.mval = None
         self.mnext = None
+        self.refheap = {}   # (class name, attr) -> z3 Array Ref -> Val: declared mutable fields of
+                            # symbolic objects (pyvc/refs.py)
 
     def snapshot(self):
         s = State()
@@ -109,6 +111,7 @@ class State:
         s.dicts = {k: dict(v) for k, v in self.dicts.items()}
         s.ghost = dict(self.ghost)
         s.mdom, s.mval, s.mnext = self.mdom, self.mval, self.mnext
+        s.refheap = dict(self.refheap)
         return s
 
 
@@ -1408,6 +1411,17 @@ class Interp:
             raise _Raise(VExc(Exception, origin=_src(node), okind="RAISES", exact=False,
                               lineno=getattr(node, "lineno", 0)))
         r = self.fresh_dyn("awaited")
+        if self.depth == 0:
+            # clauses can name what the k-th await of the function (source order) delivered
+            aw = getattr(self.fnref, "_awaits", None)
+            if aw is None:
+                aw = self.fnref._awaits = sorted(
+                    (n for n in ast.walk(self.fnref.node) if isinstance(n, ast.Await)),
+                    key=lambda n: (n.lineno, n.col_offset))
+            k = next((i + 1 for i, n in enumerate(aw)
+                      if n.lineno == node.lineno and n.col_offset == node.col_offset), None)
+            if k is not None:
+                self.st.env[f"_awaited_{k}"] = r
         if arg_len is not None:
             self.world.trusted_used.add("await <helpers>.gather(xs): a list with one result per "
                                         "awaitable, in order (len == len(xs))")
@@ -1643,11 +1657,17 @@ class Interp:
                 g = self.spec_eval(clause, env, ref)
                 self.oblige("PRE", f"{ref.short}: {clause}", g, getattr(node, "lineno", 0))
                 self.assume(g)
+            for clause in getattr(c, "class_invariants", ()):
+                self.world.trusted_used.add(f"class invariant assumed at calls of {ref.qual}: {clause}")
+                self.assume(self.spec_eval(clause, env, ref))
             if c.decreases and ref.qual == self.fnref.qual and self.entry_env is not None:
                 m_callee = self.as_int(self.spec_value_in(c.decreases, env, ref), node)
                 m_caller = self.as_int(self.spec_value_in(c.decreases, self.entry_env, ref), node)
-                self.oblige("VARIANT", f"recursive call decreases {c.decreases}",
-                            z3.And(m_callee >= 0, m_callee < m_caller), getattr(node, "lineno", 0))
+                goal = z3.And(m_callee >= 0, m_callee < m_caller)
+                if getattr(c, "decreases_when", None):
+                    goal = z3.Implies(self.spec_eval(c.decreases_when, self.entry_env, ref), goal)
+                self.oblige("VARIANT", f"recursive call decreases {c.decreases}", goal,
+                            getattr(node, "lineno", 0))
         if not st.spec and self.depth == 0 and self.contract is not None and self.contract.call_pre \
                 and isinstance(node, ast.Call):
             self.check_call_pre(ref, env, node)
@@ -1761,6 +1781,9 @@ class Interp:
             env2["result"] = res
             for clause in c.ensures:
                 self.assume(self.spec_eval(clause, env2, ref, old=old))
+            for clause in getattr(c, "assumed_ensures", ()):
+                self.world.trusted_used.add(f"assumed (not proved) about {ref.qual}: {clause}")
+                self.assume(self.spec_eval(clause, env2, ref, old=old))
             if not st.spec and not self.feasible():
                 raise _PathEnd()
             return res
@@ -1780,6 +1803,10 @@ class Interp:
             if key[1] == attr:
                 old = st.heap[key]
                 st.heap[key] = self.havoc_like(old, attr)
+        for (cname, a) in getattr(self.world, "mutable_ref_fields", {}):
+            if a == attr:
+                from .refs import RefS
+                st.refheap[(cname, a)] = z3.Array(self.namer.fresh(f"rh_{cname}_{a}"), RefS, sym.ValS)
 
     def havoc_list(self, oid, label):
         from . import codec
@@ -1942,6 +1969,8 @@ class Interp:
                 return self.ev(e)
             saved = (st.heap, st.lists, st.dicts, st.old)
             saved_maps = (st.mdom, st.mval, st.mnext)
+            saved_refheap = st.refheap
+            st.refheap = dict(st.old.refheap)
             if st.old.mdom is not None:
                 st.mdom, st.mval, st.mnext = st.old.mdom, st.old.mval, st.old.mnext
             saved_live = self.live_heap
@@ -1958,6 +1987,7 @@ class Interp:
             finally:
                 st.heap, st.lists, st.dicts, st.old = saved
                 st.mdom, st.mval, st.mnext = saved_maps
+                st.refheap = saved_refheap
                 st.env = saved_env
                 self.live_heap = saved_live
                 st.ghost, self.live_ghost = saved_ghost, saved_live_ghost
